@@ -10,10 +10,13 @@ Definition dim_eqb (a b : string * (Z * bool)) : bool :=
   String.eqb (fst a) (fst b) && Z.eqb (fst (snd a)) (fst (snd b)) && Bool.eqb (snd (snd a)) (snd (snd b)).
 
 Definition ref_keys : list string :=
-  ["bounds"; "coordinates"; "cell_measures"; "ancillary_variables"; "cell_methods"].
+  ["bounds"; "coordinates"; "cell_measures"; "ancillary_variables"; "cell_methods"; "compress"].
+
+Definition vkind_eqb (a b : vkind) : bool :=
+  match a, b with KNum, KNum | KChar, KChar | KStr, KStr => true | _, _ => false end.
 
 Definition var_eqb (a b : var) : bool :=
-  String.eqb (v_name a) (v_name b) && lstr_eqb (v_dims a) (v_dims b) &&
+  String.eqb (v_name a) (v_name b) && lstr_eqb (v_dims a) (v_dims b) && vkind_eqb (v_kind a) (v_kind b) &&
   forallb (fun k => ostr_eqb (attr k a) (attr k b)) ref_keys.
 
 (* every element of l1 has an equal element in l2, and the lengths agree *)
@@ -93,3 +96,15 @@ Definition dim_uniqueb (f : skel) : bool :=
 
 (* every in-fragment case the implementation ran on lies inside the guard of C01_roundtrip_core *)
 Definition check_wf (c : options * skel) : bool := let '(o, f) := c in wfb f && dim_uniqueb f.
+
+(* the round trip inside the model on skeletons outside the proved guard too (string-valued scalar auxiliary
+   coordinates): one construct, as many constructs of each type as the skeleton has, as many axes *)
+Definition count_type (t : ctype) (l : list ctype) : nat := length (filter (ctype_eqb t) l).
+Definition check_types (c : options * skel) : bool :=
+  let '(o, f) := c in
+  match read_skel (write_skel o f) with
+  | [r] => forallb (fun t => Nat.eqb (count_type t (map r_type (rs_cons r))) (count_type t (map c_type (f_cons f))))
+                   [CDim; CAux; CMeasure; CFanc]
+           && Nat.eqb (length (rs_axes r)) (length (f_axes f))
+  | _ => false
+  end.
